@@ -23,6 +23,26 @@ func hasPointOps(b behav.Behaviour) bool {
 	return false
 }
 
+// fullPayload: some roaring set import names abstract columns 0 and 1 of the same row
+// (codes are row*10+col).
+func fullPayload(b behav.Behaviour) bool {
+	for _, s := range b {
+		if s.Str("op") != "RoaringSet" {
+			continue
+		}
+		has := map[int]bool{}
+		for _, x := range s.Ints("xs") {
+			has[x] = true
+		}
+		for x := range has {
+			if x%10 == 0 && has[x+1] {
+				return true
+			}
+		}
+	}
+	return false
+}
+
 var cacheConfigs = []struct {
 	typ  string
 	size uint32
@@ -52,6 +72,12 @@ func casesFor(kind string, b behav.Behaviour, seed int64, extra, every int, chec
 			Checksums: checksums, BitDepth: depth}
 	}
 	out := []*Case{mk("single")}
+	// checksum runs: a roaring import whose payload names columns 0 and 1 of one row is, under the
+	// "halves" shape, a completely full container landing on whatever the row holds there (seed
+	// C10-6: a fast path for that case forgot to report the row as changed)
+	if checksums && !hasPointOps(b) && fullPayload(b) && (behav.Thorough() || next(2) == 0) {
+		out = append(out, mk("halves"))
+	}
 	// the other block shapes cost 10-100 times more per replay: in the quick tier only
 	// every `every`-th behaviour gets them
 	if every > 1 && next(every) != 0 {
